@@ -19,6 +19,7 @@ def lib():
         import jax
         import jax.numpy as jnp
         from gaussian_toolbox import approximate_conditional, conditional, factor, measure, pdf
+        from gaussian_toolbox.experimental import truncated_measure
 
         _L.update(
             jax=jax,
@@ -28,6 +29,7 @@ def lib():
             pdf=pdf,
             conditional=conditional,
             approx=approximate_conditional,
+            trunc=truncated_measure,
             CLS={
                 "ConjugateFactor": factor.ConjugateFactor,
                 "OneRankFactor": factor.OneRankFactor,
@@ -401,6 +403,18 @@ def run_affine(w, rec):
     return [w.put(rec, fn(p, **_ukw(w, rec["a"])))]
 
 
+def run_truncate(w, rec):
+    T = lib()["trunc"]
+    m = w.obj(rec["a"])
+    kw = {"measure": m}
+    if rec.get("lower") is not None:
+        kw["lower_limit"] = w.f(rec, "lower")
+    if rec.get("upper") is not None:
+        kw["upper_limit"] = w.f(rec, "upper")
+    cls = T.TruncatedGaussianPDF if rec.get("pdf") else T.TruncatedGaussianMeasure
+    return [w.put(rec, cls(**kw))]
+
+
 def run_update(w, rec):
     w.obj(rec["a"]).update(_idx(rec), w.obj(rec["d"]))
     return [w.slots[rec["a"]]]
@@ -452,6 +466,12 @@ def run_obs(w, rec):
             v = o.integrate_log_conditional_y(w.obj(rec["p"]), **_ukw(w, rec["a"]))(w.f(rec, "y"))
         else:
             v = o.integrate_log_conditional_y(w.obj(rec["p"]), y=w.f(rec, "y"), **_ukw(w, rec["a"]))
+    elif name == "trunc_call":
+        v = o(w.f(rec, "x"), element_wise=bool(rec.get("ew", False)))
+    elif name == "trunc_integrate":
+        v = o.integrate(rec["key"], **({"k": int(rec["k"])} if rec["key"] == "x**k" else {}))
+    elif name == "trunc_density_call":
+        v = o.get_density()(w.f(rec, "x"))
     elif name == "sample":
         jax = lib()["jax"]
         key = jnp.asarray(np.asarray(rec["key"], dtype=np.uint32))
@@ -482,7 +502,7 @@ RUN = {
     "get_density": run_get_density, "normalize": run_normalize, "marginal": run_marginal,
     "linear_sum": run_linear_sum, "condition_on": run_condition_on, "cond_x": run_cond_x,
     "set_y": run_set_y, "affine": run_affine, "update": run_update, "update_sigma": run_update_sigma,
-    "obs": run_obs,
+    "obs": run_obs, "truncate": run_truncate,
 }
 MUTATORS = {"normalize", "update", "update_sigma"}
 OPERAND_KEYS = ("a", "f", "p", "d", "q")
